@@ -14,7 +14,7 @@ use crate::engine::{hash64, panics, Outcome, Prop, Sink, Tier, Violation};
 use serde_json::{json, Value};
 use std::collections::BTreeSet;
 use tx3_tir::encoding::{from_bytes, AnyTir, TirVersion};
-use tx3_tir::reduce::find_params;
+use tx3_tir::reduce::{find_params, Apply as _};
 
 pub struct C17;
 
@@ -58,9 +58,15 @@ fn gen_program(c: &mut Chooser) -> String {
     // a second party / env field that differs from the first only in case
     let p2 = if c.flag() { other_case(&p1) } else { p2 };
     let e2 = if c.flag() { other_case(&e1) } else { e2 };
+    // keys whose only use sits in a block of its own: 0 none, 1 a party that only signs, 2 a parameter that only
+    // bounds the validity interval, 3 a parameter that only names a reference input
+    let lone = c.choose(4);
     let mut s = String::new();
     s.push_str(&format!("env {{\n    {e1}: Int,\n    {e2}: Bytes,\n}}\n"));
     s.push_str(&format!("party {p1};\nparty {p2};\n"));
+    if lone == 1 {
+        s.push_str("party Operator;\n");
+    }
     if with_policy {
         s.push_str("policy Minting = 0xABCDEF1234ABCDEF1234ABCDEF1234ABCDEF1234ABCDEF1234ABCDEF1234;\n");
     }
@@ -68,7 +74,18 @@ fn gen_program(c: &mut Chooser) -> String {
         0 => format!("{a1}: Int, {a2}: Bytes"),
         _ => format!("{a1}: Int, {a2}: Bytes, {a3}: Int"),
     };
+    let params = match lone {
+        2 => format!("{params}, Deadline: Int"),
+        3 => format!("{params}, Oracle: UtxoRef"),
+        _ => params,
+    };
     s.push_str(&format!("tx transfer({params}) {{\n"));
+    match lone {
+        1 => s.push_str("    signers {\n        Operator,\n    }\n"),
+        2 => s.push_str("    validity {\n        until_slot: Deadline,\n    }\n"),
+        3 => s.push_str("    reference feed {\n        ref: Oracle,\n    }\n"),
+        _ => {}
+    }
     s.push_str(&format!("    input source {{\n        from: {p1},\n        min_amount: Ada({a1}),\n    }}\n"));
     if with_policy {
         s.push_str("    mint {\n        amount: AnyAsset(Minting, \"T\", 1),\n        redeemer: (),\n    }\n");
@@ -87,6 +104,15 @@ fn gen_program(c: &mut Chooser) -> String {
     }
     s.push_str(&format!("    metadata {{\n{}\n    }}\n", meta.join("\n")));
     s.push_str("}\n");
+    // a second transaction: 0 none, 1 under another name, 2 under the same name with another parameter,
+    // 3 under a name that differs only in case
+    let second = c.choose(4);
+    if second > 0 {
+        let name = ["", "refund", "transfer", "Transfer"][second];
+        s.push_str(&format!(
+            "tx {name}(amount: Int) {{\n    input source {{\n        from: {p2},\n        min_amount: Ada(amount),\n    }}\n    output {{\n        to: {p1},\n        amount: source - fees,\n    }}\n}}\n"
+        ));
+    }
     s
 }
 
@@ -225,6 +251,13 @@ pub fn judge(src: &str, o: &mut Outcome, detail: &Value) {
         let outcome = panics::catch(|| {
             let req: tx3_resolver::trp::ResolveParams = serde_json::from_value(req.clone()).map_err(|e| format!("request: {e}"))?;
             let (tir, argmap) = tx3_resolver::trp::parse_resolve_request(req).map_err(|e| format!("parse: {e}"))?;
+            // what the client declared-and-supplied must leave no value parameter open
+            if let Ok(AnyTir::V1Beta0(applied)) = tir.clone().apply_args(&argmap) {
+                let left = crate::common::canon::unresolved_tx(&applied);
+                if let Some(k) = left.values.first() {
+                    return Err(format!("unset:{k}"));
+                }
+            }
             let store = MemStore::new(vec![super::c06::sample_utxo(0x21), super::c06::sample_utxo(0x22)]);
             let mut comp = compiler(&PP::default());
             match pollster::block_on(tx3_resolver::resolve_tx(tir, &argmap, &mut comp, &store, 3)) {
@@ -237,6 +270,15 @@ pub fn judge(src: &str, o: &mut Outcome, detail: &Value) {
                 let k = &e["missing:".len()..];
                 let kind = if k.ends_with("_script") { "policy-script-parameter" } else { "declared-key" };
                 viol(o, &format!("tii|client-with-declared-keys-misses-argument|{kind}"), format!("tx {name}: supplying every declared key still yields MissingTxArg({k})"));
+            }
+            Ok(Err(e)) if e.starts_with("unset:") => {
+                let k = &e["unset:".len()..];
+                let kind = if k.ends_with("_script") { "policy-script-parameter" } else { "declared-key" };
+                viol(
+                    o,
+                    &format!("tii|client-with-declared-keys-leaves-parameter-unset|{kind}"),
+                    format!("tx {name}: after handing over every declared key the template still expects a value for `{k}`"),
+                );
             }
             _ => {}
         }
